@@ -11,6 +11,7 @@ mod monitor;
 mod zoo;
 mod eval;
 mod named;
+mod par;
 mod rng;
 mod stop;
 mod strategy;
@@ -44,6 +45,7 @@ fn main() {
         ["replay", "run"] => cfr::replay_run(&args),
         ["record", "solve"] => monitor::record(&args),
         ["record", "stop"] => stop::record(&args),
+        ["record", "par"] => par::record(&args),
         ["replay", "lattice"] => lattice::replay(&args),
         ["child", "lattice"] => lattice::child(&args),
         other => {
